@@ -40,6 +40,12 @@ def c04_units(tier, seed):
         keep = {0, 1, len(chunks) - 1, len(chunks) - 2, (2299161 - JLO) // W, (2299161 - JLO) // W - 1, (2451545 - JLO) // W, (4194304 - JLO) // W, (4194304 - JLO) // W - 1}
         keep.update(rnd.sample(range(len(chunks)), 40))
         chunks = [chunks[i] for i in sorted(keep)]
+    else:
+        # every 4th chunk exactly (tables); the whole-century units C04l below cover every grid value of ALL day numbers
+        rnd = random.Random(seed)
+        off = rnd.randrange(4)
+        keep = set(range(off, len(chunks), 4)) | {0, 1, len(chunks) - 1, len(chunks) - 2, (2299161 - JLO) // W, (2299161 - JLO) // W - 1, (4194304 - JLO) // W, (4194304 - JLO) // W - 1}
+        chunks = [chunks[i] for i in sorted(keep)]
     for (lo, hi) in chunks:
         segs = [(lo, hi)]
         if lo < 4194304 <= hi:  # the float64 grid changes at 2^22
@@ -84,7 +90,7 @@ PROPS = {
         units=c04_units,
         bounds={
             "quick": "years 1..9998 symbolic; NextDay |n|<=70; NextHour |k|<=960; NextMonth |k|<=100000; Subtract |dyear|<=2; cubes on month; Julian Day inverse: every float64 value on the grid 2^-31 (2^-30 from JDN 2^22) inside ~49 chunks of 500 day numbers (first/last, the 1582 switch, J2000, the 2^22 grid change, 40 seeded random); one-second round trip: encode lemma for ALL valid date-times (year symbolic), decode lemma and whole-century grid inverse for 6 centuries of day numbers (first, last, 1582 switch, J2000, 2 seeded random) under the rounding-error over-approximation",
-            "thorough": "years 1..9998 symbolic; NextDay |n|<=800; NextHour |k|<=9600; NextMonth |k|<=100000; Subtract |dyear|<=12; Julian Day inverse: every float64 grid value of ALL day numbers 1721424..5373484 (7305 chunks of 500); one-second round trip: encode lemma for all valid date-times, decode lemma and whole-century grid inverse for ALL 100 centuries of day numbers",
+            "thorough": "years 1..9998 symbolic; NextDay |n|<=800; NextHour |k|<=9600; NextMonth |k|<=100000; Subtract |dyear|<=12; Julian Day inverse: every float64 grid value of every 4th chunk of 500 day numbers of 1721424..5373484 exactly (1830 chunks) and, through the whole-century units, ALL day numbers; one-second round trip: encode lemma for all valid date-times, decode lemma and whole-century grid inverse for ALL 100 centuries of day numbers",
         },
         qtimeout={"quick": 60000, "thorough": 120000},
         unit_timeout_ms={"quick": 400000, "thorough": 1500000},
@@ -109,7 +115,7 @@ def c19_units(tier, seed):
     def ranges(off):
         out = []
         for k in range(1, 6):
-            lo = max(1, (10 ** (k - 1) if k > 1 else 1) - off)
+            lo = max(0 if off == 0 else 1, (10 ** (k - 1) if k > 1 else 0) - off)  # lunar year 0 is the image of civil 0001-01-01..02-10
             hi = min(9999 if off == 0 else 9998, 10 ** k - 1 - off)
             if lo <= hi:
                 out.append((lo, hi, k))
@@ -190,7 +196,7 @@ def scan_feature_years(prefix):
         return {}
 
 
-def year_set(tier, seed, budget_quick=None, thorough_n=None):
+def year_set(tier, seed, budget_quick=None, thorough_n=None, thin=1):
     ys = set(S_CORE)
     if not budget_quick:
         ys.update(structural_years(tier))
@@ -222,6 +228,11 @@ def year_set(tier, seed, budget_quick=None, thorough_n=None):
         off = rnd.randrange(step)
         ys.update(range(1 + off, 9999, step))
         ys.update(range(1890, 2110))
+        if thin > 1:
+            # expensive harnesses: keep the core, every structural year of the scan and 1980..2040; every thin-th of the rest
+            must = set(S_CORE) | set(structural_years(tier)) | set(range(1980, 2041))
+            rest = sorted(ys - must)
+            ys = must | set(rest[::thin])
     return sorted(y for y in ys if 1 <= y <= 9998)
 
 
@@ -241,13 +252,13 @@ def c03_units(tier, seed):
     us = per_year("calendar.VH_C03_Near", "C03a", ys)
     # table clauses (order, 14.6-15.8 day spacing, entry = the year's own instant rounded to the second, adjacent years agree):
     # no symbolic input is left once the year is fixed, so these are evaluated on the real table inside the executor,
-    # for every 5th year in quick and every year in thorough
-    ty = sorted(set(ys) | set(range(2, 9998, 5))) if tier == "quick" else range(2, 9998)
+    # for every year 2..9997 (0.05 s each)
+    ty = range(2, 9998)  # 0.05 s per year: every year in both tiers
     us += [dict(id=f"C03t[Y={Y}]", harness="calendar.VH_C03_Table", params={"Y": Y}) for Y in ty]
     return us
 
 
-PROPS["C03"] = dict(units=c03_units, bounds_text="prev/next/current term: every second of each listed civil year (year list in unit_bounds), cubes on civil month; table clauses (canonical order, strictly increasing, 14.6-15.8 days apart, each entry = the year's raw instant rounded to the second, adjacent years agree on the 7 shared terms): every 5th year (quick) / every year 2..9997 (thorough), evaluated on the real table",
+PROPS["C03"] = dict(units=c03_units, bounds_text="prev/next/current term: every second of each listed civil year (year list in unit_bounds), cubes on civil month; table clauses (canonical order, strictly increasing, 14.6-15.8 days apart, each entry = the year's raw instant rounded to the second, adjacent years agree on the 7 shared terms): every year 2..9997, evaluated on the real table",
                     outside="that term instants are roots of the solar longitude; years not listed")
 
 
@@ -267,20 +278,21 @@ PROPS["C13"] = dict(units=c13_units, bounds_text="every day (and time of day) of
 
 
 def c01_units(tier, seed):
-    ys = year_set(tier, seed)
+    ys = year_set(tier, seed, thin=3)
     us = per_year("calendar.VH_C01_RoundTrip", "C01a", ys)
     us += per_year("calendar.VH_C01_Position", "C01b", ys)
-    ys2 = year_set(tier, seed, budget_quick=8) if tier == "quick" else ys[::6]
+    # stepping is the expensive harness (30-60 s per unit): thorough takes the full quick year set with the larger step bound
+    ys2 = year_set(tier, seed, budget_quick=8) if tier == "quick" else year_set("quick", seed)
     us += per_year("calendar.VH_C01_Step", "C01c", ys2, {"N": 35 if tier == "quick" else 400})
     return us
 
 
 def c06_units(tier, seed):
     ys = year_set(tier, seed)
-    if tier != "quick":
-        ys = sorted(set(ys) | set(range(1, 9999, 7)))
-    us = [dict(id=f"C06a[Y={Y}]", harness="calendar.VH_C06_Structure", params={"Y": Y}) for Y in ys]
-    ysn = year_set(tier, seed, budget_quick=14) if tier == "quick" else ys[::3]
+    # the structural clauses are evaluated on the real table (0.06 s per year): every lunar year in both tiers
+    us = [dict(id=f"C06a[Y={Y}]", harness="calendar.VH_C06_Structure", params={"Y": Y}) for Y in range(1, 9999)]
+    # navigation costs 8-20 s per unit: thorough takes the full quick year set plus every 40th other year, with the larger step bound
+    ysn = year_set(tier, seed, budget_quick=14) if tier == "quick" else sorted(set(year_set("quick", seed)) | set(ys[::40]))
     for Y in ysn:
         if 14 <= Y <= 9980:
             for k in range(13):
@@ -290,7 +302,7 @@ def c06_units(tier, seed):
 
 def c07_units(tier, seed):
     us = [dict(id="C07a", harness="calendar.VH_C07_NewSolar", params={"B": 1 << 31})]
-    ys = year_set(tier, seed, budget_quick=16) if tier == "quick" else year_set(tier, seed)[::3]
+    ys = year_set(tier, seed, budget_quick=16) if tier == "quick" else year_set(tier, seed, thin=8)
     # years with a solar-term instant whose seconds round up across a minute / hour / day boundary: every lunar
     # constructor of such a year converts that instant (carry chain of NewSolarFromJulianDay)
     ys = sorted(set(ys) | {min(v, key=lambda y: abs(y - 2000)) for v in scan_feature_years("term-instant-rounds-up").values()})
@@ -301,11 +313,11 @@ def c07_units(tier, seed):
 
 
 def c17_units(tier, seed):
-    return per_year("calendar.VH_C17_TaoFoto", "C17a", year_set(tier, seed))
+    return per_year("calendar.VH_C17_TaoFoto", "C17a", year_set(tier, seed, thin=3))
 
 
 PROPS["C01"] = dict(units=c01_units, bounds_text="every second of each listed civil year; steps |n|<=45 (quick) / 400 (thorough)", outside="years not listed; larger steps")
-PROPS["C06"] = dict(units=c06_units, bounds_text="month tables of the listed lunar years (structure: concrete evaluation); navigation |n|<=30 (quick) / 150 (thorough) from every month of each listed year", outside="years not listed")
+PROPS["C06"] = dict(units=c06_units, bounds_text="structure: the month table of EVERY lunar year 1..9998, evaluated on the real table; navigation |n|<=30 (quick) / 150 (thorough) from every month of each listed year", outside="years not listed")
 PROPS["C07"] = dict(units=c07_units, bounds_text="NewSolar: y in 1..9998, other args in [-2^31,2^31]; NewLunar/NewTao/NewFoto: month -14..14, day -2..33, time box, each listed year", outside="lunar years not listed")
 PROPS["C17"] = dict(units=c17_units, bounds_text="every second of each listed civil year", outside="years not listed")
 
@@ -357,7 +369,7 @@ def jie23_units(pid, tier):
 
 def c12_units(tier, seed):
     q = tier == "quick"
-    ys = year_set(tier, seed, budget_quick=10) if q else year_set(tier, seed)[::6]
+    ys = year_set(tier, seed, budget_quick=10) if q else year_set(tier, seed, thin=20)
     ys = [y for y in ys if y <= 9800]
     us = []
     for sect in (1, 2):
@@ -391,16 +403,16 @@ PROPS["C16"] = dict(units=c16_units, bounds_text="every second of each listed ci
 def c08_units(tier, seed):
     q = tier == "quick"
     us = [dict(id=f"C08a[sect={s},base={b}]", harness="calendar.VH_C08_Field", params={"Y": b, "SECT": s}) for s in (1, 2) for b in ((2020,) if q else (2020, 1990, 15))]
-    ys = year_set(tier, seed, budget_quick=6) if q else year_set(tier, seed)[::8]
+    ys = year_set(tier, seed, budget_quick=6) if q else year_set(tier, seed, thin=12)
     for Y in ys:
         for m in range(1, 13):
             us.append(dict(id=f"C08b[Y={Y},m={m}]", harness="calendar.VH_C08_Year", params={"Y": Y, "SECT": 1 + (Y + m) % 2, "GENDER": (Y // 2 + m) % 2}, concrete={"v_m": m}))
-    us += per_year("calendar.VH_C08_Inv", "C08i", year_set(tier, seed, budget_quick=12) if q else year_set(tier, seed))
+    us += per_year("calendar.VH_C08_Inv", "C08i", year_set(tier, seed, budget_quick=12) if q else year_set(tier, seed, thin=3))
     # the fortune objects: every accessor on the field-level chain states (same units as C12b)
     for I in ((0, 1, 9) if q else range(10)):
         for fwd in (0, 1):
             us.append(dict(id=f"C08d[I={I},fwd={fwd}]", harness="calendar.VH_C12_Chain", params={"Y": 2020, "I": I, "BM": 11, "FWD": fwd}))
-    for Y in (year_set(tier, seed, budget_quick=8) if q else year_set(tier, seed)[::2]):
+    for Y in (year_set(tier, seed, budget_quick=8) if q else year_set(tier, seed, thin=2)):
         if Y < 2 or Y > 9997:
             continue
         us.append(dict(id=f"C08c[Y={Y}]", harness="calendar.VH_C08_Containers", params={"Y": Y}))
@@ -408,6 +420,21 @@ def c08_units(tier, seed):
     us.append(dict(id="C08e[y=0..9999]", harness="calendar.VH_C08_YearObjectAll", params={"YLO": 0, "YHI": 9999}))
     # range lemma of the fortune chain states (start offsets) where the arithmetic changes shape
     us += jie23_units("C08f", tier)
+    # the packed-table list accessors on every InvLunar state (all month numbers x day pillars, month x day pillars, day x hour pillars)
+    us += list_units("C08g")
+    # stepping lemma behind Yun.GetStartSolar (birth.NextYear().NextMonth().NextDay().NextHour()): month / year stepping never
+    # panics and lands on a valid date for every valid start date (year symbolic), same unit as C04h
+    us.append(dict(id="C08h", harness="calendar.VH_C04h_NextMonthYear", params={"K": 100000}))
+    return us
+
+
+def list_units(pid):
+    """list-valued almanac attributes (yi/ji, spirits): defining inputs case-split by the solver, one unit per month number / branch;
+    the same units decide purity (C18d) and panic-freedom / well-formedness of these accessors on every InvLunar state (C08g)"""
+    us = []
+    for K in (0, 1, 2, 3):
+        for M in (range(1, 13) if K == 0 else range(12)):
+            us.append(dict(id=f"{pid}[K={K},M={M}]", harness="calendar.VH_C18_ListPure", params={"Y": 2020, "K": K, "M": M}))
     return us
 
 
@@ -418,9 +445,9 @@ def c11_units(tier, seed):
         for s in (1, 2):
             us.append(dict(id=f"C11a[sect={s},base={b}]", harness="calendar.VH_C11_Routes", params={"Y": b, "SECT": s}))
             us.append(dict(id=f"C11b[sect={s},base={b}]", harness="calendar.VH_C11_PillarPure", params={"Y": b, "SECT": s}))
-    ys = sorted(set(year_set(tier, seed)) | set(range(1840, 2160))) if q else range(1, 9999)
+    ys = range(1, 9999)  # 0.01 s per year: every year in both tiers
     us += [dict(id=f"C11c[Y={Y}]", harness="calendar.VH_C11_YearObject", params={"Y": Y}) for Y in ys]
-    us += per_year("calendar.VH_C11_TimeObject", "C11d", year_set(tier, seed, budget_quick=8) if q else year_set(tier, seed))
+    us += per_year("calendar.VH_C11_TimeObject", "C11d", year_set(tier, seed, budget_quick=8) if q else year_set(tier, seed, thin=3))
     return us
 
 
@@ -431,10 +458,7 @@ def c18_units(tier, seed):
         us.append(dict(id=f"C18a[base={b}]", harness="calendar.VH_C18_Pure", params={"Y": b}))
         us.append(dict(id=f"C18b[base={b}]", harness="calendar.VH_C18_Laws", params={"Y": b}))
     us.append(dict(id="C18c", harness="calendar.VH_C18_Tables", params={}))
-    # list-valued attributes: defining inputs case-split by the solver, one unit per month number / branch
-    for K in (0, 1, 2, 3):
-        for M in (range(1, 13) if K == 0 else range(12)):
-            us.append(dict(id=f"C18d[K={K},M={M}]", harness="calendar.VH_C18_ListPure", params={"Y": 2020, "K": K, "M": M}))
+    us += list_units("C18d")
     return us
 
 
@@ -473,8 +497,8 @@ def c14_units(tier, seed):
     return us
 
 
-PROPS["C14"] = dict(units=c14_units, bounds_text="every day of every month of every year present in the packed table (plus the year before and after): day lookup with symbolic day, month/year views, target view per day; workday stepping |n|<=3 (quick) / 6 (thorough) and pay rate for every day of the listed table years; fix-ups: for EVERY record of the table a one-segment replace (work flag toggled), remove, and add (same record thirty years later), table compared record by record afterwards",
-                    outside="fix-up strings of more than one segment, fix-ups that rename festivals (names argument), fix-ups on days with several records; larger step counts")
+PROPS["C14"] = dict(units=c14_units, bounds_text="every day of every month of every year present in the packed table (plus the year before and after): day lookup with symbolic day, month/year views, target view per day; workday stepping |n|<=3 (quick) / 6 (thorough) and pay rate for every day of the listed table years; fix-ups: for EVERY record of the table a one-segment replace (work flag toggled), remove, add (same record thirty years later) and a three-step sequence that extends the festival names, adds a record under the new name, replaces and removes it; table compared record by record afterwards",
+                    outside="fix-up strings of more than one segment, fix-ups that rename existing festivals, fix-ups on days with several records; larger step counts")
 
 
 def c09_units(tier, seed):
